@@ -1,8 +1,9 @@
 SPECIFICATION Spec
 CONSTANTS
-  Kinds = {"vv", "vr", "mem", "inv", "vrbig", "stk"}
+  Kinds = {"vv", "vr", "mem", "inv", "vrbig", "stk", "vrseq"}
   MaxStrLen = 100
   Forks = {"Frontier", "Byzantium", "London", "Cancun"}
   WorkBound = 8192
+  RunAlloc = 262144
 INVARIANTS RoundTrip BadEncodingsRefused FieldWidth Emit
 CHECK_DEADLOCK FALSE
